@@ -443,15 +443,8 @@ class Reference:
         basis = np.array(vecs).T
         if basis.shape[1] < 3:
             # complete the basis with vectors orthogonal to the given ones
-            extra = [v for v in np.eye(3)]
-            cols = list(vecs)
-            for e in extra:
-                trial = np.array(cols + [e]).T
-                if np.linalg.matrix_rank(trial) == len(cols) + 1:
-                    cols.append(e)
-                if len(cols) == 3:
-                    break
-            basis = np.array(cols).T
+            _, _, vt = np.linalg.svd(np.array(vecs))
+            basis = np.array(list(vecs) + list(vt[len(vecs):])).T
         p_loc = to_aux(tr, p) if tr else np.asarray(p, float)
         centre = np.array(cell['lat_centre'], float)
         coords = np.linalg.solve(basis, p_loc - centre)
